@@ -105,6 +105,31 @@ theorem read_packet_compressed (v : Bytes) (vs : List Bytes) (k : Nat) (d : Byte
   rw [(reads_chunk ns ⟨d ++ [], 0⟩).1]
   simp [List.append_assoc]
 
+/-- The COMPLETE operation sequence `read_packet` issues on its buffer, as one definition (the driver
+prints it — `pbuf.rp` — and the harness compares it token by token with the operations recorded on
+the live buffer): loop, `reset_cursor`, the compressed episode if a data length `k` bytes long and an
+inflated packet `d` occur, then the parser's reads (`none` = `read()`). -/
+def readPacketOps (v : Bytes) (vs : List Bytes) (comp : Option (Nat × Bytes))
+    (rs : List (Option Nat)) : List Op :=
+  loopOps v vs ++ [.rewind] ++
+    (match comp with
+     | none => []
+     | some (k, d) =>
+       (List.replicate k 1).map (fun n => .read (some n)) ++ [.read none, .reset, .send d, .rewind])
+    ++ rs.map .read
+
+/-- … and it is the sequence the two theorems above speak about. -/
+theorem readPacketOps_plain (v : Bytes) (vs : List Bytes) (ns : List Nat) :
+    readPacketOps v vs none (ns.map some)
+      = loopOps v vs ++ [.rewind] ++ ns.map (fun n => .read (some n)) := by
+  simp [readPacketOps, List.map_map, Function.comp_def]
+
+theorem readPacketOps_compressed (v : Bytes) (vs : List Bytes) (k : Nat) (d : Bytes) (ns : List Nat) :
+    readPacketOps v vs (some (k, d)) (ns.map some)
+      = loopOps v vs ++ [.rewind] ++ (List.replicate k 1).map (fun n => .read (some n))
+        ++ [.read none, .reset, .send d, .rewind] ++ ns.map (fun n => .read (some n)) := by
+  simp [readPacketOps, List.map_map, Function.comp_def, List.append_assoc]
+
 -- non-vacuity: a frame arriving in three segments, plain and compressed
 example : (run init (loopOps [5, 1] [[2], [3, 4]] ++ [.rewind] ++ [1, 2, 9].map (fun n => .read (some n)))).2
     = [[5, 1], [5, 1], [5, 1, 2], [5, 1, 2], [5, 1, 2, 3, 4], [5], [1, 2], [3, 4]] := by decide
